@@ -80,8 +80,8 @@ add('C18', ['C18', 'C18S'], 'model_checking',
 add('C19', ['C19', 'C19S'], 'exploration',
     "Exhaustive enumeration of clusters (1-5 servers, zone/rack label assignments), anti-affinity policies, replication factors, start indexes and existing placements through the real ensemble selector, and of one real rebalance round per status with the emitted swaps applied in order through the real replace logic. Schedule stage on the cluster harness (h/c19s): the real coordinator ShardController swaps a node of a real 3+1-node cluster (follower or leader, reachable or not, with lost coordinator RPC answers as further choices), every schedule at coarse points up to the deviation bound: the stored ensemble is RF distinct servers whenever BecomeLeader is sent and at the end.",
     "DESIGN.md §3 C19", "Input universe bounded as stated; multi-label rules outside the oracle.", "exhaustive enumeration of a bounded configuration universe through the real selector and balancer + " + T_SCHED + " over real servers and the real coordinator ShardController", 'enum+sched')
-add('C20', ['C20'], 'exploration',
-    "Schedule exploration (virtual time) of the real client batcher, write/read batches, write-stream wrapper and multi-shard fan-out against fake executors/streams: every callback completes exactly once with its own result, multi-shard results are the sorted union.",
+add('C20', ['C20', 'C20S'], 'exploration',
+    "Schedule exploration (virtual time) of the real client batcher, write/read batches, write-stream wrapper and multi-shard fan-out against fake executors/streams: every callback completes exactly once with its own result, multi-shard results are the sorted union. Second schedule stage (h/c20s): the real batcher with a recording batch, one or two adding threads, count limit, linger timer racing with the adds, calls that do not fit, then Close and calls added after Close has returned; the choice between ready select cases is a scheduling choice; every call answered exactly once, late calls with the shutting-down error.",
     "DESIGN.md §3 C20", SCHED_NOTE, T_SCHED, 'sched')
 
 have = set(sys.argv[1:]) if len(sys.argv) > 1 else None
